@@ -188,6 +188,17 @@ m("c05-mode-once", "C05", "parseNumber captures DefaultRoundingMode the first ti
 m("c20-lazy-pow-benign-race", "C20", "a lazily filled copy of the powers-of-ten table: every goroutine writes identical values (results stay right, but it is a data race)",
   ("int.go", "func (n uint128) log10() int {", "var (\n\tpow10Lazy      [39]uint128\n\tpow10LazyReady bool\n)\n\nfunc lazyPow10(i int) uint128 {\n\tif !pow10LazyReady {\n\t\tfor j := range pow10Lazy {\n\t\t\tpow10Lazy[j] = uint128PowersOf10[j]\n\t\t}\n\n\t\tpow10LazyReady = true\n\t}\n\n\treturn pow10Lazy[i]\n}\n\nfunc (n uint128) log10() int {\n\t_ = lazyPow10(0)\n"))
 
+m("c20-benign-mutex-cache", None, "benign: Parse keeps a mutex-guarded one-entry cache keyed by the text AND the rounding mode (correct; exercises the Lock rewriting under pre-emption inside the critical section)",
+  ("scan.go", "func Parse(s string) (Decimal, error) {\n\treturn parse(s, payloadOpParse)\n}",
+   "func Parse(s string) (Decimal, error) {\n\tmode := DefaultRoundingMode\n\n\tparseCacheMu.Lock()\n\tif parseCacheOK && parseCacheKey == s && parseCacheMode == mode {\n\t\tv := parseCacheVal\n\t\tparseCacheMu.Unlock()\n\t\treturn v, nil\n\t}\n\tparseCacheMu.Unlock()\n\n\tv, err := parse(s, payloadOpParse)\n\tif err == nil && len(s) > 34 {\n\t\tparseCacheMu.Lock()\n\t\tparseCacheKey, parseCacheVal, parseCacheMode, parseCacheOK = strings.Clone(s), v, mode, true\n\t\tparseCacheMu.Unlock()\n\t}\n\n\treturn v, err\n}\n\nvar (\n\tparseCacheMu   sync.Mutex\n\tparseCacheKey  string\n\tparseCacheVal  Decimal\n\tparseCacheMode RoundingMode\n\tparseCacheOK   bool\n)"),
+  ("scan.go", "\t\"strconv\"\n)", "\t\"strconv\"\n\t\"strings\"\n\t\"sync\"\n)"))
+
+m("c20-lock-order", "C20", "two mutex-guarded counters taken in opposite order by String and Parse (lock-order inversion: deadlock only under a particular interleaving)",
+  ("scan.go", "func Parse(s string) (Decimal, error) {\n\treturn parse(s, payloadOpParse)\n}",
+   "func Parse(s string) (Decimal, error) {\n\tstatParseMu.Lock()\n\tstatParse++\n\tstatFormatMu.Lock()\n\tstatTotal = statParse + statFormat\n\tstatFormatMu.Unlock()\n\tstatParseMu.Unlock()\n\n\treturn parse(s, payloadOpParse)\n}\n\nvar (\n\tstatParseMu  sync.Mutex\n\tstatFormatMu sync.Mutex\n\tstatParse    int\n\tstatFormat   int\n\tstatTotal    int\n)"),
+  ("scan.go", "\t\"strconv\"\n)", "\t\"strconv\"\n\t\"sync\"\n)"),
+  ("format.go", "func (d Decimal) String() string {\n\tvar buf []byte", "func (d Decimal) String() string {\n\tstatFormatMu.Lock()\n\tstatFormat++\n\tstatParseMu.Lock()\n\tstatTotal = statParse + statFormat\n\tstatParseMu.Unlock()\n\tstatFormatMu.Unlock()\n\n\tvar buf []byte"))
+
 def main():
     os.makedirs(OUT, exist_ok=True)
     for f in os.listdir(OUT):
